@@ -100,6 +100,7 @@ package node
 //@   requires c != nil && c.hg != nil && c.validator != nil && c.validator.Key != nil && event != nil && len(event.Body.Parents) == 2 && c.hg.ConsensusReady()
 //@   ensures[ready]   c.hg == old(c.hg) && c.hg.ConsensusReady()
 //@   ensures[refused] ret0 != nil ==> c.head == old(c.head) && c.seq == old(c.seq)
+//@   ensures[accepted] ret0 == nil ==> __lastret("InsertEventAndRunConsensus", 0) == nil
 //@   ensures[head]    ret0 == nil ==> (c.head == old(c.head) && c.seq == old(c.seq)) || (c.head == hg.HexOf(event) && c.seq == event.Body.Index)
 //@   ensures[pools]   __eq(c.transactionPool, old(c.transactionPool)) && __eq(c.internalTransactionPool, old(c.internalTransactionPool))
 
